@@ -335,7 +335,7 @@ func (r *Renderer) Malformed(x, tag string) *Line {
 		return mk(tag, []string{t + "UID SEARCH " + strings.Repeat("NOT (", d/2) + "DELETED" + strings.Repeat(")", d/2) + "\r\n"}, false)
 	case "bigline":
 		n := 1 << 20
-		return mk(tag, []string{t + r.pick(big(n), "NOOP "+big(n), "LOGIN "+big(n)+" x", `LOGIN "`+big(n)+`" x`, "SELECT "+big(n),
+		return mk(tag, []string{t + r.pick(big(n), "NOOP"+strings.Repeat("A", n), "LOGIN "+big(n)+" x", `LOGIN "`+big(n)+`" x`, "SELECT "+big(n),
 			"FETCH "+strings.Repeat("9", n)+" (UID)", "STATUS "+big(n)+" (MESSAGES)") + "\r\n"}, false)
 	case "quoted_eof":
 		return mk(tag, []string{t + r.pick(`LOGIN "abc`, `SELECT "INB`, `LOGIN user "p`, `LOGIN "a\`, `LIST "" "`, `ID ("na`)}, true)
